@@ -10,6 +10,7 @@ import (
 	"go/constant"
 	"go/token"
 	"go/types"
+	"jsverif/internal/ssaeval"
 	"os"
 	"path/filepath"
 	"sort"
@@ -218,6 +219,13 @@ func (c *Ctx) Tables() *Tables {
 		}
 	}
 	if t.RespLo == 0 || t.RespHi == 0 {
+		// not the form `code >= lo && code <= hi`: fold the predicate on every code from 0 to 1100 and take the
+		// (single, contiguous) range on which it is true
+		if lo, hi, ok := c.foldResponseRange(); ok {
+			t.RespLo, t.RespHi = lo, hi
+		}
+	}
+	if t.RespLo == 0 || t.RespHi == 0 {
 		t.problem("cannot read the response code range from isHTTPResponseCode")
 	}
 	// the constant excluded by NewDirectiveType (compared with != inside its table-building loop)
@@ -233,10 +241,97 @@ func (c *Ctx) Tables() *Tables {
 			})
 		}
 	}
+	// independent of how the table-building loop is written: fold NewDirectiveType on every spelling; the constant
+	// whose spelling does not come back as its own kind is the one kept out of the keyword table
+	if ex := c.foldExcludedKind(t); ex != "" {
+		t.RespConst = ex
+	}
 	if t.RespConst == "" {
 		t.problem("cannot find the constant excluded from the keyword table in NewDirectiveType")
 	}
 	return t
+}
+
+// directiveEval: an evaluator that knows the package-level tables of package directive as its initialiser leaves them.
+func (c *Ctx) directiveEval(maxVisits int) *ssaeval.Eval {
+	ev := &ssaeval.Eval{MaxDepth: 6, MaxPaths: 64, MaxVisits: maxVisits}
+	ev.Follow = inModule
+	if dp := c.P.Pkg("directive"); dp != nil {
+		c.P.BuildSSA()
+		if sp := c.P.SSAPkgs[dp.Types]; sp != nil {
+			ev.Inits(sp)
+		}
+	}
+	return ev
+}
+
+// foldExcludedKind: the Enumeration constant for which NewDirectiveType(<its spelling>) does not fold to that constant.
+func (c *Ctx) foldExcludedKind(t *Tables) string {
+	f := c.P.LookupFunc("directive", "NewDirectiveType")
+	if f == nil || len(t.SS) == 0 {
+		return ""
+	}
+	sf := c.P.SSAFunc(f)
+	if sf == nil || len(sf.Params) != 1 {
+		return ""
+	}
+	ev := c.directiveEval(2000)
+	var excluded []string
+	for name, v := range t.Consts {
+		if int(v) >= len(t.SS) {
+			continue
+		}
+		same := false
+		outs := ev.Run(sf, []ssaeval.Value{ssaeval.Str(t.SS[v])})
+		for _, o := range outs {
+			if o.Incomplete != "" || o.Panics || len(o.Rets) != 2 {
+				return ""
+			}
+			if isNil, known := o.Rets[1].IsNilKnown(); known && isNil && o.Rets[0].K == ssaeval.Const {
+				if n, ok := constant.Int64Val(constant.ToInt(o.Rets[0].C)); ok && n == v {
+					same = true
+				}
+			}
+		}
+		if !same {
+			excluded = append(excluded, name)
+		}
+	}
+	if len(excluded) == 1 {
+		return excluded[0]
+	}
+	return ""
+}
+
+// foldResponseRange folds directive.isHTTPResponseCode on 0..1100.
+func (c *Ctx) foldResponseRange() (lo, hi int64, ok bool) {
+	f := c.P.LookupFunc("directive", "isHTTPResponseCode")
+	if f == nil {
+		return 0, 0, false
+	}
+	sf := c.P.SSAFunc(f)
+	if sf == nil || len(sf.Params) != 1 {
+		return 0, 0, false
+	}
+	ev := c.directiveEval(50)
+	lo, hi = -1, -1
+	closed := false
+	for n := int64(0); n <= 1100; n++ {
+		outs := ev.Run(sf, []ssaeval.Value{ssaeval.Int(n)})
+		if len(outs) != 1 || outs[0].Incomplete != "" || len(outs[0].Rets) != 1 || outs[0].Rets[0].K != ssaeval.Const {
+			return 0, 0, false
+		}
+		yes := constant.BoolVal(outs[0].Rets[0].C)
+		switch {
+		case yes && lo < 0:
+			lo = n
+		case yes && closed:
+			return 0, 0, false // not one contiguous range
+		case !yes && lo >= 0 && !closed:
+			hi, closed = n-1, true
+		}
+	}
+	return lo, hi, lo > 0 && closed
 }
 
 func methodOf(pk *packages.Package, t types.Type, name string) *types.Func {
